@@ -7,6 +7,8 @@ import os
 import re
 
 
+OUTPUT = "Tables.lean"      # the generated file (harness/core.py: a failure of this translator concerns the properties that import it)
+
 def generate(build_dir):
     mt = importlib.import_module("cutadapt._match_tables")
     ad = importlib.import_module("cutadapt.adapters")
